@@ -1055,7 +1055,12 @@ func (b *boundsAnalyser) madeByMake(o *types.Var) (bool, string) {
 	return false, "a definition of the map is not make(...)"
 }
 
+var exprKeyInfo *types.Info
+
 func exprKey(e ast.Expr) string {
+	if exprKeyInfo != nil {
+		return canonExpr(exprKeyInfo, e)
+	}
 	return types.ExprString(e)
 }
 
@@ -1232,6 +1237,7 @@ func (b *boundsAnalyser) expr(e ast.Expr, z *zone) {
 // analyseFunc runs the analysis over one function declaration.
 func (b *boundsAnalyser) analyseFunc(fd *ast.FuncDecl, pkg *packages.Package, name string) {
 	b.pkg, b.info, b.fn, b.enclosing = pkg, pkg.TypesInfo, name, fd
+	exprKeyInfo = pkg.TypesInfo
 	b.commaOk = map[*ast.TypeAssertExpr]bool{}
 	ast.Inspect(fd, func(n ast.Node) bool {
 		switch s := n.(type) {
